@@ -33,6 +33,16 @@ def run(check):
         c, 'C07.R11', ['_specifiers:forged_signature', '_signatures:signature', 'sphinxext:process_signature', '*_autoforwards', '*_util', '*_specifiers'],
         'leaves retrieval / the Sphinx hook'))
 
+    from ..rules_escape import rule_subject_hashed
+    check.run_rule('C07.R13', lambda c: rule_subject_hashed(c, 'C07.R13'))
+
+    def r12(c):
+        from ..rules_defuse import rule_index_guarded
+        from ..rules_windows import retrieval_closure
+        from ..callgraph import CallGraph
+        rule_index_guarded(c, 'C07.R12', retrieval_closure(c, CallGraph(c.repo)), 'leaves retrieval')
+    check.run_rule('C07.R12', r12)
+
     def r10(c):
         # the other implicit exception visible in the code: subscripting a provenance map with a key it need not have ('+depths' of a
         # hand-built or plain signature a forger returned) -- KeyError leaves retrieval (shared with C15.R7)
